@@ -190,6 +190,14 @@ impl AnyState {
             serde_json::from_value::<LjState>(doc.clone()).map(AnyState::Lj).map_err(|e| e.to_string())
         }
     }
+    /// Read a document as the same concrete kind as `like` (no inspection of the document).
+    pub fn from_json_as(like: &AnyState, doc: &Value) -> Result<AnyState, String> {
+        match like {
+            AnyState::Poly(_) => serde_json::from_value::<HardPoly>(doc.clone()).map(AnyState::Poly).map_err(|e| e.to_string()),
+            AnyState::Mol(_) => serde_json::from_value::<HardMol>(doc.clone()).map(AnyState::Mol).map_err(|e| e.to_string()),
+            AnyState::Lj(_) => serde_json::from_value::<LjState>(doc.clone()).map(AnyState::Lj).map_err(|e| e.to_string()),
+        }
+    }
     pub fn from_group(group: &str, shape: &ShapeSpec) -> AnyState {
         let g = get_wallpaper_group(wallpaper_enum(group)).unwrap();
         match shape {
